@@ -125,6 +125,15 @@ CHECKS.update({
     ),
 })
 
+CHECKS.update({
+    "C15": dict(
+        engine="sched-linetrace",
+        technique="systematic schedule exploration inside property-based testing: a harness-owned line-level scheduler (sys.settrace + baton) makes thread interleavings generated data; every single-preemption schedule is enumerated per generated definition, multi-preemption schedules are drawn by Hypothesis; oracle = solo result per thread",
+        text="for each generated definition (expression-length arrays, bit-fields, unions, pointers; compiled and interpreted) 2-3 real threads parse and dump their own bytes with the shared types under a deterministic scheduler: all single-preemption schedules at source-line granularity are enumerated, schedules with up to 4 preemptions are generated; every thread must obtain exactly its solo result",
+        design_ref="DESIGN.md §4 C15",
+    ),
+})
+
 NOT_YET = {}
 
 
@@ -167,6 +176,7 @@ def main():
         },
         "engines": [
             {"name": "pbt-hypothesis", "path": "pbt/drive.py", "serves_properties": sorted(CHECKS), "kind_free_text": "sharded Hypothesis search + exhaustive small-scope enumeration with explicit oracles, replay files, known-finding predicates"},
+            {"name": "sched-linetrace", "path": "pbt/sched.py", "serves_properties": ["C15"], "kind_free_text": "deterministic line-level thread scheduler (sys.settrace + per-thread semaphores); schedules are generated/enumerated data"},
             {"name": "refsem", "path": "pbt/refsem.py", "serves_properties": [], "kind_free_text": "independent reference semantics (layout, decode with data mask, encode, defaults)"},
         ],
         "checks": checks,
